@@ -658,3 +658,43 @@ class ScpDataLength:
     def raises_SCPError(self, self_post, g_probe_fails, _trace):
         return (self._scp_data_length is None and g_probe_fails and len(_trace) == 1 and _trace[0] == ("get_software_version", 255, 255, 0)
                 and self_post._scp_data_length is None)
+
+
+# ---- read_across_link: one command of the loop (fragment; the buffer bookkeeping is abstracted) ---------------------------------------------
+def _ral_scp(E, obj, args, kwargs, st, node):
+    from pyvc.values import ListV as _L, ObjV as _O
+    s = st.copy()
+    s.trace = _L(s.trace.items + (("scp",) + tuple(args) + (tuple(sorted(kwargs.items())),),))
+    return [(s, _O("SCPPacket", {"data": _O("Bytes", {"ident": 3})}), None)]
+
+
+_MEMV = _TRec7("MemoryView", ident=TInt(0, 9))
+
+
+@contract("rig/machine_control/machine_controller.py::MachineController.read_across_link@whilebody:0")
+class ReadAcrossLinkStep:
+    """one command of a read across a link: it asks for the next whole words - as many as the buffer holds, at most what is left -
+    at exactly the current address, down exactly the link named, through the monitor of the chip named; afterwards the address has
+    moved on and the remaining length shrunk by exactly that many bytes (so the commands tile the range and the loop ends)"""
+    properties = ("C07",)
+    params = dict(self=MCREC, address=TInt(0, 2 ** 32 - 1), length_bytes=TInt(1, 2 ** 24), x=COORD, y=COORD, link=TInt(0, 5), mem=_MEMV)
+    fragment_result = ("address", "length_bytes")
+    fragment_head = "while length_bytes > 0:"
+    externals = {"MachineController._send_scp": _ral_scp}
+    abstracted = {"mem[:to_read] = response.data": {"mem": _MEMV}, "mem = mem[to_read:]": {"mem": _MEMV}}
+    options = {"int_class": "rig/machine_control/consts.py::SCPCommands"}
+    assumptions = ["_send_scp (MCSendScp) is recorded; the two statements that copy the reply into the result buffer and advance the view over it "
+                   "are abstracted (memoryview aliasing is outside the model: the bytes returned are decided by the bounded layer)"]
+
+    def requires(self, address, length_bytes):
+        return address % 4 == 0 and length_bytes % 4 == 0
+
+    def native(x):
+        raise __import__("pyvc.replay", fromlist=["OutsideHarness"]).OutsideHarness()
+
+    def ensures_next_whole_words_at_the_current_address_down_this_link(self, address, length_bytes, x, y, link, result, _trace):
+        lim = self.scp_data_length - self.scp_data_length % 4
+        n = length_bytes if length_bytes <= lim else lim
+        return (len(_trace) == 1 and _trace[0] == ("scp", x, y, 0, 17, (("arg1", address), ("arg2", n), ("arg3", link), ("expected_args", 0)))
+                and 4 <= n and n % 4 == 0 and n <= self.scp_data_length
+                and result[0] == address + n and result[1] == length_bytes - n)
